@@ -33,6 +33,7 @@ type ChildResult struct {
 	ViolByKey   map[string]int64  `json:"viol_by_key"`
 	FirstByKey  map[string]string `json:"first_by_key"`
 	Notes       map[string]string `json:"notes"`
+	Inconcl     []string          `json:"inconclusive"`
 }
 
 // progress is read by the child's hang watchdog.
@@ -147,7 +148,7 @@ func ChildMain(prop, tier string, seed int64, from, to int, prefix string) int {
 		m.Teardown(c)
 	}
 	res := ChildResult{Prop: prop, From: from, To: to, Evaluations: c.Evaluations, Counters: c.Counters,
-		Samples: c.Samples, Viol: c.Viol, ViolByKey: c.ViolByKey, FirstByKey: c.FirstByKey, Notes: c.Notes}
+		Samples: c.Samples, Viol: c.Viol, ViolByKey: c.ViolByKey, FirstByKey: c.FirstByKey, Notes: c.Notes, Inconcl: c.Inconcl}
 	hb := make([]byte, 0, 8*len(c.Distinct))
 	for h := range c.Distinct {
 		hb = binary.LittleEndian.AppendUint64(hb, h)
@@ -246,6 +247,17 @@ func (mg *merged) absorb(prefix string) error {
 	}
 	for k, v := range r.Notes {
 		mg.notes[k] = v
+	}
+	for _, m := range r.Inconcl {
+		dup := false
+		for _, x := range mg.inconcl {
+			if x == m {
+				dup = true
+			}
+		}
+		if !dup {
+			mg.inconcl = append(mg.inconcl, m)
+		}
 	}
 	return nil
 }
@@ -591,7 +603,11 @@ func finish(m *Monitor, mg *merged, prop, tier string, seed int64, n int, start 
 		}
 		return 2
 	}
-	fmt.Printf("HELD property=%s on everything observed\n", prop)
+	if len(known) > 0 {
+		fmt.Printf("HELD property=%s on everything observed, apart from the listed known findings\n", prop)
+	} else {
+		fmt.Printf("HELD property=%s on everything observed\n", prop)
+	}
 	return 0
 }
 
@@ -625,6 +641,9 @@ func ReplayMain(path string) int {
 	RunCaseGuarded(m, c, r.Idx)
 	if m.Teardown != nil {
 		m.Teardown(c)
+	}
+	for _, m := range c.Inconcl {
+		fmt.Printf("INCONCLUSIVE property=%s %s\n", r.Property, m)
 	}
 	if len(c.Viol) == 0 {
 		fmt.Printf("replay %s case %d: no violation\n", r.Property, r.Idx)
